@@ -289,12 +289,12 @@ func (s *SwapStateMachine) Recover() (bool, error) {
 		return false, fmt.Errorf("unknown state: %s for swap %s", s.Current, s.SwapId.String())
 	}
 
-	if !ok || state.Action == nil {
-		// configuration error
-		return false, ErrFsmConfig
-	}
 	if state.FailOnrecover {
 		return s.SendEvent(Event_ActionFailed, nil)
+	}
+	if state.Action == nil {
+		// configuration error
+		return false, ErrFsmConfig
 	}
 
 	nextEvent := state.Action.Execute(s.swapServices, s.Data)
